@@ -19,7 +19,7 @@ BETA = next(b for b in (pow(g, (q - 1) // 3, q) for g in range(2, 50)) if b != 1
 
 def cases(tier, seed):
     out = []
-    reps = 4 if tier == 'quick' else 400
+    reps = 12 if tier == 'quick' else 400
     for _ in range(reps):
         for which in (1, 2):
             for rel in RELATIONS:
